@@ -7,6 +7,7 @@ pub mod c14;
 pub mod c15;
 pub mod c20;
 pub mod tamper;
+pub mod worldmon;
 
 use crate::util::ShardOut;
 
@@ -25,7 +26,11 @@ pub fn run(a: &Args) -> Result<ShardOut, String> {
     match a.prop.as_str() {
         "C01" => Ok(c01::run(a)),
         "C20" => Ok(c20::run(a)),
+        "C02" => Ok(worldmon::run_c02(a)),
         "C06" => Ok(c06::run(a)),
+        "C07" => Ok(worldmon::run_c07(a)),
+        "C08" => Ok(worldmon::run_c08(a)),
+        "C09" => Ok(worldmon::run_c09(a)),
         "C11" => Ok(c11::run(a)),
         "C12" => Ok(c12::run(a)),
         "C14" => Ok(c14::run(a)),
